@@ -1015,13 +1015,30 @@ pub fn instance(ctx: &Ctx, family: &str, idx: u64) -> (Value, String, &'static s
         Profile::Forbid,
         Profile::Degenerate,
     ]);
-    let max_dep = if ctx.thorough() { *rng.pick(&[4, 7, 12]) } else { *rng.pick(&[3, 5, 8]) };
+    let max_dep = if ctx.thorough() { *rng.pick(&[4, 7, 12, 20]) } else { *rng.pick(&[3, 5, 8]) };
     let mut opts = GenOpts::new(profile, max_dep);
     if rng.chance(2, 3) {
         opts.force_slots = true;
     }
     let tag = format!("h{}c{}", ctx.seed, idx);
     let mut input = gen::generate(&mut rng, &opts, &tag);
+    if rng.chance(1, 15) {
+        // co-located scarce depots, nearest in seconds is not nearest in metres
+        input = gen::depot_squeeze_network(&mut rng, &tag);
+        return (input, tag, "depot_squeeze_network", rng);
+    }
+    if rng.chance(1, 15) {
+        // turning around takes longer than a detour over another station
+        input = gen::turnaround_network(&mut rng, &tag);
+        return (input, tag, "turnaround_network", rng);
+    }
+    if rng.chance(1, 20) {
+        // a busy line: tours with dozens of activities, slow non-metric dead-heads
+        let ndep = rng.usize(25, if ctx.thorough() { 120 } else { 70 });
+        let (ws, ld) = (rng.chance(1, 2), rng.chance(1, 2));
+        input = gen::line_network(&mut rng, &tag, ndep, ws, ld);
+        return (input, tag, "busy_line", rng);
+    }
     if rng.chance(1, 10) {
         // a network where a detour over a maintenance slot is feasible but the direct connection
         // is not: dummy tours with a gap arise when the slot is stripped
@@ -1071,7 +1088,7 @@ pub fn case(ctx: &Ctx, idx: u64) -> CaseOut {
         }
     };
     out.count(&format!("start.{}", start_kind), 1);
-    let n_ops = if ctx.thorough() { rng.usize(60, 200) } else { rng.usize(30, 80) };
+    let n_ops = if ctx.thorough() { rng.usize(60, 400) } else { rng.usize(30, 80) };
     let mut seen_ids: BTreeSet<VehicleIdx> = BTreeSet::new();
     let mut history: Vec<Value> = Vec::new();
     let mut before = Obs::of(&b, &s);
